@@ -26,7 +26,7 @@ if [ -z "${MUTANT_SKIP_TESTS:-}" ]; then
 fi
 rc=0
 for p in "${props[@]}"; do
-  (cd "$W/verif" && VERIF_ROOT="$W/verif" ./run "$p" "$tier" 2>&1 | grep -E "^(VIOLATION|KNOWN-FINDING|INTERNAL|  signature|  what|C[0-9][0-9] )" | head -${MUTANT_LINES:-14})
-  r=${PIPESTATUS[0]}
-  echo "== $p exit=$r"
+  (cd "$W/verif" && VERIF_ROOT="$W/verif" ./run "$p" "$tier" >"$W/$p.log" 2>&1; echo $? >"$W/$p.rc")
+  grep -E "^(VIOLATION|KNOWN-FINDING|INTERNAL|  signature|  what|C[0-9][0-9] )" "$W/$p.log" | head -${MUTANT_LINES:-14}
+  echo "== $p exit=$(cat "$W/$p.rc")"
 done
